@@ -50,6 +50,9 @@ impl private::ValueStorageTrait for ValueStorage {
     type ValueStore = ValueStore;
 
     fn get_value_store(&self, store_id: ValueStoreIdx) -> Result<Arc<Self::ValueStore>> {
+        if Into::<usize>::into(store_id) >= self.0.len() {
+            return Err(format_error!("Value store index is not valid"));
+        }
         Ok(Arc::clone(self.0.get(store_id)?))
     }
 }
@@ -62,6 +65,9 @@ impl EntryStorage {
     }
 
     pub fn get_entry_store(&self, store_id: EntryStoreIdx) -> Result<&Arc<EntryStore>> {
+        if Into::<usize>::into(store_id) >= self.0.len() {
+            return Err(format_error!("Entry store index is not valid"));
+        }
         self.0.get(store_id)
     }
 }
